@@ -187,8 +187,30 @@ func genCase(r *core.Rand, mode, order string, quick bool) *tunnelCase {
 	tc.UpSegs = pickSegs(r, tc.Up1+tc.Up2)
 	tc.DownSegs = pickSegs(r, tc.Down1+tc.Down2)
 	tc.Pause = r.Chance(30)
-	if bm := baseMode(mode); (bm == "http" || bm == "https") && r.Chance(25) {
-		tc.ReplyVariant = 1
+	if bm := baseMode(mode); bm == "http" || bm == "https" {
+		// the upstream proxy's 2xx reply: in two cases of five it carries a Content-Length and/or a
+		// Transfer-Encoding, which a reply to CONNECT must not and which the proxy has to ignore - what
+		// follows the blank line belongs to the tunnel (regression target of the repaired finding F29);
+		// Coalesce above decides independently whether payload travels in the same write as the reply
+		switch x := r.Intn(100); {
+		case x < 20:
+			tc.ReplyVariant = 1
+		case x < 34:
+			tc.ReplyVariant = 2
+		case x < 46:
+			tc.ReplyVariant = 3
+		case x < 53:
+			tc.ReplyVariant = 4
+		case x < 60:
+			tc.ReplyVariant = 5
+		}
+		if tc.ReplyVariant >= 2 && tc.Down1+tc.Down2 == 0 && r.Chance(70) {
+			tc.Down1 = r.Range(1, 3000) // something for a mistaken body reader to swallow
+			if r.Chance(50) {
+				tc.Coalesce = tc.Down1
+			}
+			tc.DownSegs = pickSegs(r, tc.Down1)
+		}
 	}
 	if baseMode(mode) != "upgrade" && r.Chance(10) {
 		tc.HeadVariant = 1
@@ -228,7 +250,9 @@ func Run(ctx *core.Ctx) {
 		"there are configurations in which neither leg of the tunnel has an io.ReaderFrom/io.WriterTo fast path (TLS listener x https upstream / " +
 		"ConnectFunc returning a *tls.Conn / ConnectFunc returning a struct wrapper / X-Martian-Terminate-Tls / 101 body); " +
 		"random write segmentation on both sides, request head and early payload in one write or cut at " +
-		"offsets around the end of the head / byte by byte, far side sending payload in the same write as its reply, half-close order " +
+		"offsets around the end of the head / byte by byte, far side sending payload in the same write as its reply, the upstream HTTP/HTTPS " +
+		"proxy's 2xx reply being HTTP/1.1 plain, HTTP/1.0, or (two cases in five) carrying Content-Length: 5 / Content-Length: 300000 / " +
+		"Transfer-Encoding: chunked / both, which a reply to CONNECT has to be read without (RFC 9110 9.3.6; the shape of the repaired F29), half-close order " +
 		"client-first / target-first / simultaneous with more data sent after the peer's end-of-stream was seen; a tunnel is non-trivial " +
 		"when it carries early data, a coalesced reply, a sequenced half-close or payload in both directions; distinct = distinct case objects")
 	ctx.Assume("the kernel's loopback TCP delivers what is written in order and signals FIN as end-of-stream (the endpoints observe through it)")
@@ -365,14 +389,40 @@ func (e *env) finalCheck(ctx *core.Ctx) {
 
 // ---- evaluation of one tunnel ----
 
-const classReplyCL = "upstream-2xx-content-length"
+// No known-finding class is open for C03: finding F29 (class upstream-2xx-content-length: a
+// Content-Length on the upstream proxy's 2xx reply to CONNECT made the proxy swallow that many tunnel
+// bytes) is repaired in dialvia/http.go. Replies of that shape (replyShape) are ordinary cases: a byte
+// lost behind one is a VIOLATION.
 
-// knownClass names the known-finding class a case falls in, from the input alone.
-func knownClass(tc *tunnelCase) string {
-	if bm := baseMode(tc.Mode); (bm == "http" || bm == "https") && tc.ReplyVariant == 2 {
-		return classReplyCL
+// replyShape names what the far side sends before tunnel bytes (a histogram label).
+func replyShape(tc *tunnelCase) string {
+	switch bm := baseMode(tc.Mode); bm {
+	case "http", "https":
+		switch tc.ReplyVariant {
+		case 1:
+			return "upstream-2xx/http-1.0"
+		case 2:
+			return "upstream-2xx/with-content-length"
+		case 3:
+			return "upstream-2xx/with-transfer-encoding-chunked"
+		case 4:
+			return "upstream-2xx/with-content-length-beyond-the-payload-sent-with-it"
+		case 5:
+			return "upstream-2xx/with-transfer-encoding-and-content-length"
+		}
+		return "upstream-2xx/plain"
+	case "socks5":
+		return "socks5-reply"
+	case "upgrade":
+		return "origin-101"
 	}
-	return ""
+	return "none (direct dial / ConnectFunc)"
+}
+
+// declaresContent: an upstream proxy's 2xx reply that carries Content-Length / Transfer-Encoding.
+func declaresContent(tc *tunnelCase) bool {
+	bm := baseMode(tc.Mode)
+	return (bm == "http" || bm == "https") && tc.ReplyVariant >= 2
 }
 
 func (e *env) runAndEvaluate(ctx *core.Ctx, tc *tunnelCase) *tunnelObs {
@@ -430,6 +480,21 @@ func (e *env) evaluate(ctx *core.Ctx, tc *tunnelCase, obs *tunnelObs) {
 	} else {
 		ctx.Count("coalesced-reply/no")
 	}
+	ctx.Count("reply/" + replyShape(tc))
+	if declaresContent(tc) {
+		up := "http-upstream"
+		if baseMode(tc.Mode) == "https" {
+			up = "https-upstream"
+		}
+		co := "payload-in-a-later-write"
+		switch {
+		case tc.Down1+tc.Down2 == 0:
+			co = "no-payload"
+		case tc.Coalesce > 0:
+			co = "payload-coalesced-with-the-reply"
+		}
+		ctx.Count("upstream-2xx-declaring-content/" + up + "/" + co)
+	}
 	if tc.WaitReply {
 		ctx.Count("client/waits-for-reply")
 	} else {
@@ -465,13 +530,9 @@ func (e *env) evaluate(ctx *core.Ctx, tc *tunnelCase, obs *tunnelObs) {
 		return
 	}
 	fails := 0
-	class := knownClass(tc)
-	if class != "" {
-		ctx.Count("known-class/" + class)
-	}
 	fail := func(clause, detail string) {
 		fails++
-		ctx.SpecFail(clause, class, tc, impl, detail)
+		ctx.SpecFail(clause, "", tc, impl, detail) // no known-finding class is open for C03
 	}
 	for _, x := range []struct {
 		name string
@@ -525,10 +586,6 @@ func (e *env) evaluate(ctx *core.Ctx, tc *tunnelCase, obs *tunnelObs) {
 	if ans != "true" {
 		if fails == 0 {
 			fail("observation is a settled state of the tunnel model ("+strings.TrimPrefix(ans, "false ")+")", ans)
-		}
-		if class == classReplyCL && bothFin && obs.Down.Sent >= 5 && obs.HeadLen+obs.ReplyLen+obs.Up.Sent+obs.Down.Sent <= 16384 {
-			// the model mirrors the defect: with the reply's declared content it loses the same bytes
-			e.compareWithModelRun(ctx, tc, obs, impl)
 		}
 		return
 	}
